@@ -180,6 +180,12 @@ def strtoulReads (s : Bytes) : Option Nat :=
     some (if m ≥ cap64 then cap64 - 1 else if p.1 then (cap64 - m) % cap64 else m)
   else none
 
+/-- the same reading without the modulo: `(negative, magnitude)` of a service that `strtoul`
+reads completely (magnitude saturating at 2^64) -/
+def numericReads (s : Bytes) : Option (Bool × Nat) :=
+  let p := signSplit (s.dropWhile isSpace)
+  if isDigits p.2 then some (p.1, satVal cap64 p.2) else none
+
 /-- `to_string`'s text for a host / service pair (see also `Addr.toString`) -/
 def toString (v6 : Bool) (host serv : Bytes) : Bytes :=
   if v6 then [0x5b] ++ host ++ [0x5d, 0x3a] ++ serv else host ++ [0x3a] ++ serv
@@ -216,6 +222,12 @@ end Legacy
 def NoSilentWrap (pUri : Bytes → Except Exn GaiCall) (pPair : Bytes → Bytes → Except Exn GaiCall) : Prop :=
   (∀ uri c v, pUri uri = .ok c → strtoulReads c.serv = some v → v ≤ 65535) ∧
   (∀ host serv c v, pPair host serv = .ok c → strtoulReads c.serv = some v → v ≤ 65535)
+
+/-- the strict reading: the number written (sign applied, no modulo) is a port: magnitude
+≤ 65535 and a minus sign only in front of zero -/
+def NoSilentWrapStrict (pUri : Bytes → Except Exn GaiCall) (pPair : Bytes → Bytes → Except Exn GaiCall) : Prop :=
+  (∀ uri c neg m, pUri uri = .ok c → numericReads c.serv = some (neg, m) → m ≤ 65535 ∧ (neg = true → m = 0)) ∧
+  (∀ host serv c neg m, pPair host serv = .ok c → numericReads c.serv = some (neg, m) → m ≤ 65535 ∧ (neg = true → m = 0))
 
 /-- ASCII text as bytes (for examples and witnesses) -/
 def ofChars (cs : List Char) : Bytes := cs.map fun c => UInt8.ofNat c.toNat
